@@ -132,10 +132,58 @@ func vfSafeRead(c *HijackClientHelloConn, b []byte) (n int, err error, pan any) 
 	return
 }
 
+// what was handed out stays what it was: the record returned by GetClientHello at the end of a path is kept (the slice itself and a
+// copy), the connection is closed, and after the paths that follow - each of which creates, feeds and closes further connections - the
+// slice must still hold the same bytes ("no stale one": proxyserver stores the returned slice in the connection's metadata and handlers
+// read it for as long as they run, which may be after the connection is gone)
+type vfHeld struct {
+	got, want []byte
+	trail     []int
+}
+
+var vfHeldRing []vfHeld
+
+func (w *vfC04Walker) leaf(c *HijackClientHelloConn, trail []int) {
+	for _, h := range vfHeldRing {
+		if !bytes.Equal(h.got, h.want) {
+			w.res.violate(map[string]any{"check": "C04", "kind": "record_changed_after_handout", "model": w.model},
+				fmt.Sprintf("the record returned by GetClientHello after reads %v (%d bytes %x..) changed to %x.. once the connection was closed and later connections were fed", h.trail, len(h.want), vfTrunc(h.want), vfTrunc(h.got)),
+				map[string]any{"reads": h.trail})
+			vfHeldRing = nil
+			break
+		}
+	}
+	b, err := c.GetClientHello()
+	c.Close()
+	if err == nil && len(b) > 0 {
+		// two later connections of another client (a longer record of other octets), served and closed
+		want := append([]byte{}, b...)
+		for k := 0; k < 2; k++ {
+			other := append([]byte{0x16, 0x03, 0x03, 0x00, 0x30}, bytes.Repeat([]byte{0xe0 + byte(k)}, 0x30)...)
+			oc := NewHijackClientHelloConn(&vfScriptConn{next: other})
+			vfSafeRead(oc, make([]byte, len(other)+8))
+			oc.GetClientHello()
+			oc.Close()
+		}
+		if !bytes.Equal(b, want) {
+			w.res.violate(map[string]any{"check": "C04", "kind": "record_changed_after_handout", "model": w.model},
+				fmt.Sprintf("the record returned by GetClientHello after reads %v (%d bytes %x..) reads %x.. after the connection was closed and two other connections were served", trail, len(want), vfTrunc(want), vfTrunc(b)),
+				map[string]any{"reads": trail})
+			return
+		}
+		vfHeldRing = append(vfHeldRing, vfHeld{got: b, want: append([]byte{}, b...), trail: append([]int{}, trail...)})
+		if len(vfHeldRing) > 16 {
+			vfHeldRing = vfHeldRing[1:]
+		}
+		w.res.Actions["handout_held_across_close"]++
+	}
+}
+
 func (w *vfC04Walker) dfs(node int, c *HijackClientHelloConn, stream []byte, pos int, trail []int) {
 	w.seenNode[node] = true
 	if len(w.g.out[node]) == 0 {
 		w.res.Paths++
+		w.leaf(c, trail)
 		if len(w.res.Samples) < 6 && len(trail) >= 3 {
 			w.res.Samples = append(w.res.Samples, map[string]any{"model": w.model, "stream_prefix": fmt.Sprintf("%x", vfTrunc(stream)),
 				"stream_len": len(stream), "reads": append([]int{}, trail...), "get_len_at_end": len(vfGet(c))})
